@@ -83,6 +83,11 @@ pub enum DKind {
 
 /// descriptor ids from here on denote re-entrant descriptors (they call parse_expression + describe themselves)
 pub const REENTRANT_DESC: usize = 1000;
+/// descriptor ids in REG_DESC..SELF_DESC REGISTER a descriptor from inside the descriptor (the reference
+/// descriptor of the name `inner_r`, always the plain marker REG_INNER_ID, so that concurrent ones commute)
+/// and then describe `inner_r`: the registration must be in effect for that very describe and afterwards
+pub const REG_DESC: usize = 20_000;
+pub const REG_INNER_ID: usize = 999;
 /// descriptor ids in SELF_DESC..EMPTY_DESC re-enter the engine like the re-entrant ones, but describe a
 /// program that contains nodes of (almost) every kind and name - possibly their OWN key - and limit their
 /// own recursion: inside such a descriptor (depth >= 1) they render `<id|parts|~>` without re-entering
@@ -161,6 +166,12 @@ pub enum Op {
     Describe { prog: Prog },
     /// run the operations on a freshly spawned simulated thread and join it
     OnThread { ops: Vec<Op> },
+    /// thread teardown: a freshly spawned simulated thread runs the operations in its body and then ONCE MORE
+    /// from the destructor of one of its own (user) thread-locals while the thread ends; `late` = that
+    /// thread-local is first touched after the body (so after the thread's first engine calls) instead of
+    /// before it, which decides on which side of the engine's own thread-locals it is destroyed.
+    /// Result: the body's results followed by the destructor's.
+    OnThreadExit { ops: Vec<Op>, late: bool },
     /// ONE DescriptorManager handle kept in a binding: the registrations are made through it, then the
     /// operations run while it is still alive, then it is dropped
     WithManager { regs: Vec<(DKind, String, usize)>, then: Vec<Op> },
